@@ -106,8 +106,14 @@ def model_B2(doc):
     for e in b["enumerations"]:
         if e["name"] == "MarkupKind":
             e["values"][0]["value"] = "plaintextX"
+            e["supportsCustomValues"] = True
         if e["name"] == "DiagnosticSeverity":
             e["values"][0]["value"] = 11
+        # openness flips keep the shape as well
+        if e["name"] in ("FoldingRangeKind", "CodeActionKind", "WatchKind"):
+            e.pop("supportsCustomValues", None)
+        if e["name"] in ("SymbolKind", "InsertTextFormat", "TraceValue"):
+            e["supportsCustomValues"] = True
     return b
 
 
@@ -129,6 +135,9 @@ def model_C(doc):
             ],
         }
     )
+    # several classes with Python-keyword property names (collections of such classes must be ordered)
+    for nm, kws in (("VerifKeywordsOne", ["import", "from"]), ("VerifKeywordsTwo", ["global"]), ("VerifKeywordsThree", ["class", "lambda", "in"]), ("AVerifKeywordsFour", ["try"])):
+        c["structures"].append({"name": nm, "properties": [{"name": k, "type": {"kind": "base", "name": "string"}, "optional": True} for k in kws]})
     return c
 
 
@@ -145,7 +154,8 @@ def trimmed(doc, keep_req=3, keep_not=2):
 STALE = {
     "python": [("lsprotocol/types.py", "garbage = (\n")],
     "rust": [("lsprotocol/src/lib.rs", "fn garbage( {\n")],
-    "dotnet": [("lsprotocol/VerifStale.cs", "// stale\n"), ("lsprotocol/Position.cs", "// stale garbage\n")],
+    # incl. stale files that carry the NAME of a hand-written custom class (copied, not generated)
+    "dotnet": [("lsprotocol/VerifStale.cs", "// stale\n"), ("lsprotocol/Position.cs", "// stale garbage\n"), ("lsprotocol/OrType.cs", "// stale garbage under a custom class name\n"), ("lsprotocol/Validators.cs", "// stale\n")],
     "testdata": [("VerifStale-True-0.json", "{}"), ("InitializeRequest-True-%s.json" % ("0" * 64), "{\"stale\": 1}")],
 }
 
